@@ -48,6 +48,7 @@ package NoKV
 //@ ghost var batchCollected int
 //@ ghost var batchVlogOK bool
 //@ ghost var batchSyncs Int
+//@ ghost var batchFailedAt int
 //@ ghost var badAcks Int
 //@ func (*DB).nextCommitBatch
 //@   trusted
@@ -66,6 +67,7 @@ package NoKV
 //@ func (*DB).applyRequests
 //@   trusted
 //@   ghost batchSyncs = 0
+//@   ghost batchFailedAt = result
 //@   ensures [failed-at-in-range] (result1 == nil) == (result == -1) && (result1 != nil ==> 0 <= result && result < len(reqs))
 //@   modifies heap
 //@ func github.com/feichai0017/NoKV/wal::(*Manager).Sync
@@ -74,7 +76,7 @@ package NoKV
 //@   modifies nothing
 //@ func (*DB).finishCommitRequests
 //@   trusted
-//@   ghost badAcks = ((defaultErr == nil && batchCollected > 0 && !(batchVlogOK && (batchSyncs > 0 || !db.opt.SyncWrites))) ? badAcks + 1 : badAcks)
+//@   ghost badAcks = ((defaultErr == nil && batchCollected > 0 && (isnil(perReqErr) || batchFailedAt > 0) && !(batchVlogOK && (batchSyncs > 0 || !old(db.opt.SyncWrites)))) ? badAcks + 1 : badAcks)
 //@   modifies heap
 //@ func (*DB).releaseCommitBatch
 //@   trusted
